@@ -6,8 +6,9 @@
 //! fsynced, and everything that happened before a completed `rename`, is on
 //! disk unchanged. The one file named `in_flight` by the hook (content written
 //! but not yet fsynced) may hold, instead of what the process wrote so far:
-//! any prefix of it, zeros of the same length, or stale bytes (what was at that
-//! path before, or the previous generation of the same object). For a routine
+//! any prefix of it, zeros of the same length, stale bytes (what was at that
+//! path before, or the previous generation of the same object), or a written
+//! prefix followed by stale bytes at the same offsets. For a routine
 //! that appends, only the appended tail is in flight. Directory-entry durability
 //! and sector reordering inside one `write` are not modelled.
 
@@ -262,6 +263,10 @@ pub enum ImageKind {
     /// the in-flight file holds stale bytes (previous content at that path, or
     /// the previous generation of the object)
     Stale,
+    /// the in-flight file has its length; its first n bytes are what was
+    /// written, the rest is stale bytes at the same offsets (zeros beyond the
+    /// stale content): blocks reached the disk one after the other
+    Mixed(usize),
 }
 
 impl ImageKind {
@@ -271,6 +276,7 @@ impl ImageKind {
             ImageKind::Prefix(_) => "torn",
             ImageKind::Zeros => "zeros",
             ImageKind::Stale => "stale",
+            ImageKind::Mixed(_) => "mixed",
         }
     }
 }
@@ -334,10 +340,46 @@ pub fn image_kinds(inf: Option<&InFlight<'_>>, seed: u64) -> Vec<ImageKind> {
         if let Some(s) = &f.stale {
             if s.hash != f.cur.hash {
                 v.push(ImageKind::Stale);
+                for n in mixed_cuts(len, seed) {
+                    // only cuts that differ from both the full new and the full stale content
+                    let rest_differs = (n..len).any(|i| s.bytes.get(i).copied().unwrap_or(0) != f.cur.bytes[i]);
+                    let head_differs = s.bytes.len() != len || (0..n).any(|i| s.bytes[i] != f.cur.bytes[i]);
+                    if rest_differs && head_differs {
+                        v.push(ImageKind::Mixed(n));
+                    }
+                }
             }
         }
     }
     v
+}
+
+fn mixed_cuts(len: usize, seed: u64) -> Vec<usize> {
+    if len <= 1 {
+        return Vec::new();
+    }
+    if len <= 600 {
+        return (1..len).collect();
+    }
+    let mut set = std::collections::BTreeSet::new();
+    for i in 1..=32 {
+        set.insert(i);
+        set.insert(len - i);
+    }
+    for a in [512usize, 4096, 65536] {
+        let mut x = a;
+        let mut n = 0;
+        while x < len && n < 4 {
+            set.insert(x);
+            x += a;
+            n += 1;
+        }
+    }
+    let mut r = Rng::new(seed ^ 0x4D49_5845 ^ (len as u64).rotate_left(29));
+    for _ in 0..48 {
+        set.insert(1 + r.below((len - 1) as u64) as usize);
+    }
+    set.into_iter().filter(|&n| n >= 1 && n < len).collect()
 }
 
 /// `None`: the kind does not apply to this snapshot (replay of an outdated file).
@@ -362,6 +404,18 @@ pub fn materialize(files: &Files, inf: Option<&InFlight<'_>>, kind: &ImageKind) 
         (ImageKind::Stale, Some(f)) => {
             let s = f.stale.as_ref()?;
             out.insert(f.path.to_string(), s.clone());
+        }
+        (ImageKind::Mixed(n), Some(f)) => {
+            let s = f.stale.as_ref()?;
+            let len = f.cur.bytes.len();
+            if *n > len {
+                return None;
+            }
+            let mut b = f.cur.bytes[..*n].to_vec();
+            for i in *n..len {
+                b.push(s.bytes.get(i).copied().unwrap_or(0));
+            }
+            out.insert(f.path.to_string(), Blob::new(b));
         }
     }
     Some(out)
@@ -659,7 +713,7 @@ pub fn eval_history<R: Routine>(h: &R::Hist, known: &Known, shrink_target: Optio
                 hh.write(&(snap.seq as u64).to_le_bytes());
                 hh.write(format!("{kind:?}").as_bytes());
                 st.nontrivial.insert(hh.finish());
-                if st.samples.len() < 2 && (st.nontrivial.len() == 1 || matches!(kind, ImageKind::Zeros | ImageKind::Stale)) {
+                if st.samples.len() < 2 && (st.nontrivial.len() == 1 || matches!(kind, ImageKind::Zeros | ImageKind::Stale | ImageKind::Mixed(_))) {
                     st.samples.push(serde_json::json!({"history": h, "seq": snap.seq, "site": snap.site, "image": kind}));
                 }
             }
